@@ -383,6 +383,10 @@ contract(
 
 
 # ------------------------------------------------------------------ set_row / insert_row / delete_row (int positions)
+import specs.vault as _sv  # noqa: E402
+
+_sv.MODULAR_POSTS |= {"odfdo.table:Table.set_row", "odfdo.table:Table.insert_row", "odfdo.table:Table.delete_row"}
+
 _ROW_REQ = lambda a: S.And(inv_vault(a.self, "rows"), inv_vault(a.self, "cols"), width_ok(a.self), disjoint(a.self), a.y >= 0,  # noqa: E731
                            S.Or(a.row is None, lambda: S.And(detached(a.self, "rows", a.row), exists_before(a.row))))
 
